@@ -37,6 +37,13 @@ BASES = {
                     {"cols": copy.deepcopy(T1["cols"][:2]),
                      "index": {"kind": "multi", "levels": [{"values": ["p", "q", "r"], "dtype": "object", "name": "k1"},
                                                            {"values": [1, 2, 3], "dtype": "int64", "name": "k2"}]}}),
+    # a corner of the parser space as a base (parser-enabled properties only): optional column absent from the conforming table,
+    # defaulted and nullable columns, ordered + add_missing_columns -- so that the column-insertion logic is one data edit away
+    "frame_parsing": (S.frame(cols=[S.comp(name="a", dtype="int64"), S.comp(name="n", dtype="str", required=False),
+                                    S.comp(name="q", dtype="int64", default=7), S.comp(name="c", dtype="float64", nullable=True)],
+                              ordered=True, add_missing_columns=True),
+                      {"cols": [{"name": "a", "dtype": "int64", "values": [1, 2, 3]}, {"name": "q", "dtype": "int64", "values": [1, 2, 3]},
+                                {"name": "c", "dtype": "float64", "values": [1.5, 2.5, 3.5]}], "index": None}),
     "series": (dict(S.comp(name="a", dtype="int64"), kind="series", index=None),
                {"cols": copy.deepcopy(T1["cols"][:1]), "index": None}),
     "series_index": (dict(S.comp(name="a", dtype="int64"), kind="series", index=dict(S.comp(name="idx", dtype="int64"), kind="single")),
@@ -467,10 +474,23 @@ def space(base_name, ks, kd, parsers=False, rich=True, related=True, schema_filt
     out = []
     sidx = -1
     for i in range(ks + 1):
-        for scomb in itertools.combinations(sed, i):
+        for scomb0 in itertools.combinations(sed, i):
             sidx += 1
             if shard is not None and sidx % shard[1] != shard[0]:
                 continue
+            variants = [scomb0]
+            adds = [e for e in scomb0 if e[0] == "addcheck"]
+            if len(adds) >= 2 and len({e[1] for e in adds}) < len(adds) and any(e[2]["k"].startswith("custom") for e in adds):
+                # check order matters when one of them raises / is a user check: also the reverse order
+                variants.append(tuple(reversed(scomb0)))
+            for scomb in variants:
+                _space_one(scomb, spec0, table0, ded, kd, i, related, seen, out, base_name)
+    return out
+
+
+def _space_one(scomb, spec0, table0, ded, kd, i, related, seen, out, base_name):
+    if True:
+        if True:
             st = [schema_edit_target(e) for e in scomb]
             spec = spec0
             ok = True
@@ -481,7 +501,7 @@ def space(base_name, ks, kd, parsers=False, rich=True, related=True, schema_filt
                     ok = False
                     break
             if not ok:
-                continue
+                return
             for j in range(kd + 1):
                 for dcomb in itertools.combinations(ded, j):
                     if related and (i + j) >= 3:
@@ -500,4 +520,3 @@ def space(base_name, ks, kd, parsers=False, rich=True, related=True, schema_filt
                     seen.add(key)
                     out.append({"base": base_name, "schema": spec, "table": table,
                                 "edits": [list(scomb), list(dcomb)]})
-    return out
